@@ -44,7 +44,7 @@ CLAIMED = {
  'C08': dict(
     text='One inductive step from every reachable state of every reducible object (4 reduced error models, reduced population models over plain / composed / covariate models, reduced mechanistic model, LogLikelihood.fix_parameters): all (pre-state, call dictionary) transitions within the bound with symbolic values; the results at the free parameters are decided equal to the unfixed object at the substituted vector, names/counts are the free parameters in order, and the history equals a single net call (also with an evaluation between the calls, and with sensitivities left enabled from before the call: the array returned without re-enabling them must follow the free set of the moment).',
     design='5 C08',
-    note='Trusted: z3 / hash-consed term identity (substitution is exact, so most obligations are decided by identity of the symbolic terms), RNG stub, the unfixed objects as reference. Outside: ProblemModellingController.fix_parameters with data, predictive models, SBML-backed models.',
+    note='Trusted: z3 / hash-consed term identity (substitution is exact, so most obligations are decided by identity of the symbolic terms), RNG stub, the unfixed objects as reference. Also: chi.PredictiveModel and PopulationPredictiveModel as reducible objects (names, counts, seeded samples), compute_individual_parameters(return_eta=True), dimensions renamed after wrapping, and histories of fix / re-fix / release calls on the ProblemModellingController against the posterior assembled by hand (the case of C14). Outside: SBML-backed ReducedMechanisticModel (C09/C11).',
     technique='symbolic execution on z3 reals; inductive step over (mask, buffer) states x call dictionaries; SMT / term-identity equality'),
  'C12': dict(
     text='Bounded symbolic verification of the five population filters and ComposedPopulationFilter: for all real measurements and simulated measurements within the bound z3 decides score = documented log-density sum with the documented empirical estimators, sensitivities = symbolic derivative in input order, invariance under permuting measured individuals, sort_times with consistently reordered simulations (all time permutations) and splitting over a composed filter; the log-sum-exp maximum branches are explored path by path.',
@@ -129,7 +129,10 @@ def main():
                 replay_cmd_template='./check %s --replay {path}' % pid,
                 engine='chisym',
                 level_claimed=dict(category='other', text=c['text'], design_ref=c['design']),
-                level_note=c['note'],
+                level_note=c['note'] + ' The bounds as built are in the '
+                'evidence file (bounds.quick / thorough / outside) and in '
+                'DESIGN.md section 5; the seeded changes that shaped them '
+                '(13 rounds) in section 9.',
                 technique=c['technique']))
         else:
             na.append(dict(property_id=pid, reason=NOT_APPLICABLE.get(pid, PENDING)))
